@@ -277,6 +277,37 @@ def run_mat(ck, hb, rng, n, stats):
                          "PROPERTY: %s reloaded with other dimensions/values: saved %s loaded %s" % (tag, o[:10], oc[1:11]), dict(kind="mat", cases=[line]))
     return len(cases)
 
+# ---------- MATLAB sparse: CSC arrays as stored by libmatio vs the model ----------
+def run_csc(ck, hb, rng, n, stats):
+    cases = [gen_obj(rng, 3, nonfinite=True, big=False) for _ in range(n)]
+    w = lex.d2w
+    cases += [[3, 2, 3, 2, 0, 1, w(0.0), 1, 2, w(-0.0)], [3, 1, 1, 1, 0, 0, w(-0.0)], [3, 3, 3, 0], [3, 4, 2, 3, 0, 1, w(1.5), 3, 0, w(2.5), 3, 1, w(0.0)]]
+    lines = ["c07 9 %s" % " ".join(map(str, o)) for o in cases]
+    rc, io, err = core.run_harness(hb, lines, ck.workdir, tag="csc")
+    mo = core.run_model(["c07 7 %s" % " ".join(map(str, mobj(o))) for o in cases])
+    for o, line, il, ml in zip(cases, lines, io, mo):
+        out = ints(il); m = ints(ml)
+        stats["dist"]["csc/Sparse"] = stats["dist"].get("csc/Sparse", 0) + 1
+        tag = "mat %s" % describe(o); rep = dict(kind="csc", cases=[line])
+        if out[0] != 0 or (len(out) > 1 and out[1] == -1):
+            ck.violation("matlab sparse save fails: %s" % describe(o), "PROPERTY: %s: save/reopen failed (%s)" % (tag, out[:2]), rep); continue
+        # impl: nl nc nir ir njc jc ndata data | outcome ; model: same with data as halves
+        p = 1; nl, nc = out[p], out[p + 1]; p += 2
+        nir = out[p]; ir = out[p + 1:p + 1 + nir]; p += 1 + nir
+        njc = out[p]; jc = out[p + 1:p + 1 + njc]; p += 1 + njc
+        nd = out[p]; data = out[p + 1:p + 1 + nd]; p += 1 + nd
+        oc = out[p:]
+        impl_arrays = [0, nl, nc, nir] + ir + [njc] + jc + [nd] + [h for x in data for h in lex.halves(x)]
+        if m[:len(impl_arrays)] != impl_arrays:
+            stats["mism"] += 1
+            ck.violation("csc arrays differ: %s" % describe(o), "the (ir, jc, data) stored in the MATLAB file differ from the model's write_csc for %s: impl ir=%s jc=%s, model %s" % (tag, ir[:8], jc[:8], m[:20]), rep)
+        elif m[len(impl_arrays):] != moutcome(oc):
+            stats["mism"] += 1
+            ck.violation("csc read differs: %s" % describe(o), "read_sparse and the model's read_csc disagree for %s: impl %s model %s" % (tag, oc[:10], m[len(impl_arrays):][:10]), rep)
+        if oc and (oc[0] != 0 or oc[1:] != o):
+            ck.violation("matlab roundtrip changes the object: %s" % describe(o), "PROPERTY: %s reloaded as %s %s" % (tag, outcome_str(oc), oc[1:10]), rep)
+    return len(cases)
+
 # ---------- om_matrix_convert ----------
 def run_convert(ck, hb, bdir, rng, n, stats):
     tool = None
@@ -373,8 +404,9 @@ def main(replay=None):
     cases = corpus + exhaustive_small(ck.rng) + gen_rt_cases(ck.rng, 700 if quick else 6000)
     run_rt(ck, hb, order, cases, stats)
     nmat = run_mat(ck, hb, ck.rng, 60 if quick else 600, stats)
+    ncsc = run_csc(ck, hb, ck.rng, 60 if quick else 500, stats)
     ncv = run_convert(ck, hb, bdir, ck.rng, 60 if quick else 500, stats)
-    ck.cov.update(evaluations=len(cases) + nmat + ncv, distinct_nontrivial=len(stats["nontrivial"]),
+    ck.cov.update(evaluations=len(cases) + nmat + ncv + ncsc, csc_cases=ncsc, distinct_nontrivial=len(stats["nontrivial"]),
                   rule="round-trip cases kind x {bin,txt} x shape (all shapes <=4 exhaustively x all target kinds; random dims biased to 0/1/2/3, to sizes whose first header byte is a digit/newline (10,13,32,48..57), up to 300 rows; sparsity patterns empty/single/half/full/random; values: signed zeros, 1e+-300, integers, random decades, NaN/Inf for bin/mat); 30% cross-kind loads; non-trivial = same-kind case with at least one stored value; distinct = distinct case lines",
                   samples=[rt_line(c)[:300] for c in cases[len(cases) // 2:len(cases) // 2 + 3]], op_distribution=stats["dist"],
                   error_outcomes=stats["errors"], correspondence_mismatches=stats["mism"], unmodelled_outcomes=stats["unmodelled"],
